@@ -362,7 +362,8 @@ def check_awaiters(ctx, fx):
     # Addr as Future: poll forwards the poll of its RunningFuture
     pf = fx.impl_fn("core::future::future::Future", "addr::Addr<", "poll")
     if ctx.require(pf is not None, "R04.4", "Addr::poll", "impl Future for Addr not found"):
-        b = ctx.body(fx, pf)
+        import inline
+        b = inline.body(ctx, fx, pf, inline.not_public)  # the poll may sit in a crate-private method of the signal's newtype
         polls = [(bi, t) for bi, t in b.normal_calls() if (t.get("callee") or "").endswith("poll_unpin") or (t.get("callee") or "").endswith("Future::poll")]
         ok = False
         det = None
@@ -394,7 +395,7 @@ def check_awaiters(ctx, fx):
                     # explicit form `match poll { Ready(r) => { ..; Ready(r.map_err(..)) } Pending => Pending }`: each
                     # outcome is answered by the same outcome, carrying the polled result
                     ok = _poll_forwarded_by_match(ctx, fx, b, bi, t)
-        det = {"polls": t["callee"], "on": t["argtys"][0][:80]}
+        det = {"polls": [t_["callee"] for _b, t_ in polls], "on": [t_["argtys"][0][:80] for _b, t_ in polls if t_.get("argtys")]}
         ctx.require(ok and len(polls) == 1, "R04.4", "Addr::poll", "awaiting an address must return the poll of its shared termination future", fn=pf["def"], site=pf["loc"], detail=det)
     A = nfa.Alphabet(
         calls=[("stop", nfa.callee_is("addr::Addr::<A>::stop")), ("join", nfa.callee_is("addr::OwningAddr::<A>::join", "actor::spawner::actor_handle::ActorHandle::<A>::join")),
